@@ -158,7 +158,35 @@ func runC07(c *Ctx, r *Report) {
 			r.Check(gotID && gotTime, "R-C07.1", key, ld.Pos(), "clock id and clock time both reach the signed bytes", fmt.Sprintf("the signed bytes do not contain both clock parts (id=%v, time=%v)", gotID, gotTime))
 			continue
 		}
-		r.Hold("R-C07.1", key, ld.Pos(), true, "Hashable."+t.field+" flows into the json.Marshal argument")
+		// … and it does so on every path: the statement that files the field in the marshalled value dominates the
+		// Marshal call (additional data is filed only when there is some, which the property does not list)
+		uncond, nfile := false, 0
+		if t.field == "AdditionalData" {
+			uncond = true
+		}
+		allInstrs(stb, false, func(ins ssa.Instruction) {
+			var val ssa.Value
+			switch x := ins.(type) {
+			case *ssa.MapUpdate:
+				val = x.Value
+			case *ssa.Store:
+				val = x.Val
+			default:
+				return
+			}
+			if !backSlice(val, nil)[ld] {
+				return
+			}
+			nfile++
+			if instrDominates(ins, marshalCall) {
+				uncond = true
+			}
+		})
+		if nfile == 0 {
+			uncond = true // handed to Marshal directly
+		}
+		r.Check(uncond, "R-C07.1", key, ld.Pos(), "Hashable."+t.field+" flows into the json.Marshal argument on every path",
+			"Hashable."+t.field+" is filed in the signed bytes only on some paths (under a condition on the entry): for the entries on the other paths that part can be changed without invalidating the signature")
 	}
 	// result of toBuffer is the marshal result
 	retOK := false
@@ -360,6 +388,57 @@ func runC07(c *Ctx, r *Report) {
 			}
 			sort.Strings(ks)
 			r.Violate("R-C07.3", r.Key("R-C07.3", tb, "ambiguous-encoding", ""), phi.Pos(), fmt.Sprintf("a signed field reaches json.Marshal through alternative encodings %v chosen at run time: an input in one encoding collides with a different input in the other", ks))
+		}
+	}
+
+	// the same on the way into the hashable view: a first-party helper between a getter and its Hashable field that
+	// hands back its argument on one path and something it built on another is two encodings chosen at run time
+	{
+		var names []string
+		for n := range stored {
+			names = append(names, n)
+		}
+		sort.Strings(names)
+		for _, n := range names {
+			for x := range backSlice(stored[n], nil) {
+				call, ok := x.(*ssa.Call)
+				if !ok || call.Parent() != sth {
+					continue
+				}
+				g := call.Call.StaticCallee()
+				isBytes := false
+				if sl, ok := call.Type().Underlying().(*types.Slice); ok {
+					if b, ok := sl.Elem().Underlying().(*types.Basic); ok && b.Kind() == types.Byte {
+						isBytes = true
+					}
+				}
+				if g == nil || g.Blocks == nil || !p.firstParty(calleePkg(g)) || !(isStringish(call.Type()) || isBytes) {
+					continue
+				}
+				identity, built := false, false
+				allInstrs(g, false, func(ins ssa.Instruction) {
+					ret, ok := ins.(*ssa.Return)
+					if !ok || len(ret.Results) == 0 {
+						return
+					}
+					v := ret.Results[0]
+					for k := 0; k < 4; k++ {
+						if ct, ok := v.(*ssa.ChangeType); ok {
+							v = ct.X
+							continue
+						}
+						break
+					}
+					if _, isParam := v.(*ssa.Parameter); isParam {
+						identity = true
+					} else {
+						built = true
+					}
+				})
+				if identity && built {
+					r.Violate("R-C07.3", r.Key("R-C07.3", th, "ambiguous-encoding", n), call.Pos(), fmt.Sprintf("Hashable.%s goes through %s, which hands its argument back unchanged on one path and a re-encoded value on another: an input in one form collides with a different input in the other, and both carry the same valid signature", n, g.Name()))
+				}
+			}
 		}
 	}
 
